@@ -10,6 +10,7 @@ from vf.simk.world import World
 
 ID = "C10"
 LEVEL = "model_checking"
+ALT_MOUNT = True
 _CFG = None
 VALS = (1, 5, 9)
 NET_HDR = (b"Inter-|   Receive                                                |  Transmit\n"
@@ -302,6 +303,8 @@ def one(ctx, mode, depth):
 
 def run(ctx):
     plan = [("net", 6), ("disk", 6), ("both", 4)] if not ctx.thorough else [("net", 7), ("disk", 7), ("both", 5)]
+    if ctx.alt:
+        plan = [("net", 4), ("disk", 4)]          # second pass with procfs mounted elsewhere: shorter histories, no schedules
     tot = {"states": 0, "transitions": 0}
     viols, labels, parts, samples = [], {}, {}, []
     capped = None
@@ -318,7 +321,7 @@ def run(ctx):
         capped = capped or r["capped"]
     from vf.checks import c10s
     ctx.close()
-    sres = c10s.run_s(ctx)
+    sres = c10s.run_s(ctx) if not ctx.alt else {"violations": [], "coverage": {"executions": 0, "transitions": 0}}
     viols += sres["violations"]
     tot["states"] += sres["coverage"]["executions"]
     tot["transitions"] += sres["coverage"]["transitions"]
